@@ -52,7 +52,7 @@ Proof. reflexivity. Qed.
 
 Ltac lz t := eval lazy -[Z.add Z.sub Z.mul Z.ltb Z.leb Z.eqb Z.opp Z.shiftl Z.of_nat Z.to_nat zlen index_of last_index_of
                           range_loop count_loop app nth_error pal_id pal_value bs_get bs_set bs_new blen
-                          cfg_bits cfg_create pc_get pc_set copy_loop positions zlist_eqb p_set p_rfuel run_flat pal_read bs_read read32 bs_fix Z.of_N Z.to_N N.add N.modulo] in t.
+                          cfg_bits cfg_create pc_get pc_set copy_loop positions zlist_eqb p_set p_pread run_flat pal_read bs_read read32 bs_fix Z.of_N Z.to_N N.add N.modulo] in t.
 (* evaluate one closed exec / eval / scoped_exec occurrence *)
 Ltac ev1 :=
   match goal with
